@@ -208,6 +208,17 @@ def _cutoff_attr(ctx, ci):
     raise Inconclusive("cannot find the attribute holding the evaluation cutoff")
 
 
+def _opaque_cond(e, counter, selfn) -> bool:
+    """A condition the guard analysis cannot read although it may be about the counter: it calls something, or compares an
+    expression that mentions the counter (directly or through an accessor) in a form _norm_guard did not recognise."""
+    if e is None:
+        return False
+    if any(isinstance(x, ast.Call) for x in ast.walk(e)):
+        return True
+    names = {x.attr for x in ast.walk(e) if isinstance(x, ast.Attribute)}
+    return isinstance(e, ast.Compare) and (counter in names or any(_ALIASES.get(a) == counter for a in names))
+
+
 def r16_3(ctx: Ctx):
     """R16.3 cutoff: refuses exactly when counter >= cutoff, with the direction's worst sentinel and without forwarding."""
     ci = ctx.prog.cls("EvalCutoffProblem")
@@ -239,7 +250,7 @@ def r16_3(ctx: Ctx):
                 msg = f"refuses only when {counter} > {cutoff}: forwards cutoff + 1 evaluations (off by one)"
             else:
                 msg = f"a refusing path is not guarded by {counter} >= {cutoff}"
-            opaque = not rels and any(c.ast is not None and not isinstance(c.ast, (ast.Constant,)) for c, _ in s.conds)
+            opaque = not rels and any(_opaque_cond(c.ast, counter, selfn) for c, _ in s.conds)
             obs.append(ctx.ob("R16.3", f, s.ret_node, status=INCONCLUSIVE if opaque else VIOLATION, detail=msg if not opaque else f"cannot relate the conditions on a refusing path ({', '.join(norm(c.ast)[:40] for c, _ in s.conds)}) to {counter} >= {cutoff}", witness=[f"L{n.lineno}: {n.label[:80]}" for n in s.nodes], construct="guard:" + ",".join(r for r, _ in rels)))
         else:
             obs.append(ctx.ob("R16.3", f, rels[0][1].ast, detail=f"refusing path guarded by {counter} {rels[0][0]} {cutoff}", construct="guard"))
@@ -256,7 +267,7 @@ def r16_3(ctx: Ctx):
         rels = [_norm_guard(c.ast, lab, counter, cutoff, selfn) for c, lab in s.conds]
         rels = [r for r in rels if r]
         if not any(r in ("<", "!=") for r in rels):
-            opaque = not rels and any(c.ast is not None for c, _ in s.conds)
+            opaque = not rels and any(_opaque_cond(c.ast, counter, selfn) for c, _ in s.conds)
             obs.append(ctx.ob("R16.3", f, s.ret_node, status=INCONCLUSIVE if opaque else VIOLATION, detail=f"a forwarding path is not guarded by {counter} < {cutoff}" if not opaque else f"cannot relate the conditions on a forwarding path to {counter} < {cutoff}", witness=[f"L{n.lineno}: {n.label[:80]}" for n in s.nodes], construct="fwd-guard:" + ",".join(rels)))
     # cutoff written only by the constructor
     for f2 in ctx.prog.all_functions():
@@ -324,6 +335,23 @@ def r16_4(ctx: Ctx):
         eta_stmt = s.events[i_eta][1]
         aliases = _prop_aliases(ctx, ci)
         ok_val = is_self_attr(eta_stmt.value, counter, selfn) or (is_self_attr(eta_stmt.value, None, selfn) and aliases.get(eta_stmt.value.attr) == counter)
+        # a local that holds the counter: where it was read decides
+        if not ok_val and isinstance(eta_stmt.value, ast.Name):
+            rd = [(k, e[1]) for k, e in enumerate(s.events) if e[0] != "store:ETA" and isinstance(e[1], ast.AST)]
+            loc_defs = [n_.ast for n_ in s.nodes if n_.ast is not None and isinstance(n_.ast, ast.Assign) and len(n_.ast.targets) == 1 and isinstance(n_.ast.targets[0], ast.Name) and n_.ast.targets[0].id == eta_stmt.value.id]
+            if len(loc_defs) == 1 and (is_self_attr(loc_defs[0].value, counter, selfn) or (is_self_attr(loc_defs[0].value, None, selfn) and aliases.get(loc_defs[0].value.attr) == counter)):
+                # position of the read among the path's nodes, relative to the forward / increment events
+                order = [n_.ast for n_ in s.nodes if n_.ast is not None]
+                pos_read = next((k for k, a_ in enumerate(order) if a_ is loc_defs[0]), None)
+                ev_nodes = [e[1] for e in s.events if e[0] in ("inc", "forward") or e[0].startswith("super:")]
+                pos_evs = [next((k for k, a_ in enumerate(order) if any(x is ev for x in ast.walk(a_))), None) for ev in ev_nodes]
+                pos_evs = [p_ for p_ in pos_evs if p_ is not None]  # events of an inherited evaluate sit behind the super() call node
+                if pos_read is not None and pos_evs:
+                    if pos_read > max(pos_evs):
+                        ok_val = True
+                    else:
+                        obs.append(ctx.ob("R16.4", f, eta_stmt, status=VIOLATION, detail=f"ETA is stored from `{eta_stmt.value.id}`, a copy of the counter taken before the forwarded evaluation was counted (0-based index)", witness=kinds))
+                        continue
         if not ok_val:
             positively_other = isinstance(eta_stmt.value, ast.Constant) or (isinstance(eta_stmt.value, (ast.Attribute, ast.BinOp)) and not any(isinstance(x, ast.Call) for x in ast.walk(eta_stmt.value)))
             obs.append(ctx.ob("R16.4", f, eta_stmt, status=VIOLATION if positively_other else INCONCLUSIVE, detail=f"ETA is stored from `{norm(eta_stmt.value)}`, not from the evaluation counter"))
